@@ -569,7 +569,7 @@ func (c *VC) builtin(st *State, name string, call *ast.CallExpr) []*Term {
 		if name == "delete" {
 			if mt, ok := c.mapModelled(c.typeOf(call.Args[0])); ok {
 				h := c.eval(st, call.Args[0])
-				k := c.coerce(st, c.eval(st, call.Args[1]), c.typeOf(call.Args[1]), mt.Key())
+				k := c.mapKey(mt, c.coerce(st, c.eval(st, call.Args[1]), c.typeOf(call.Args[1]), mt.Key()))
 				c.mapDelete(st, mt, h, k, call.Pos(), exprText(c.prog.fset, call))
 				return nil
 			}
